@@ -199,6 +199,27 @@ Proof.
   - apply Forall_app. split; [assumption|now constructor].
 Qed.
 
+(* the same for any predicate on edits that the roll-up satisfies *)
+Lemma apply_edit_forall (P : txn -> Prop) m t roll :
+  Forall (Forall P) (mfragments m) -> P t -> (forall m', P (to_edit m')) ->
+  Forall (Forall P) (mfragments (apply_edit m t roll)).
+Proof.
+  intros Hc Ht Hroll. unfold mfragments in *. apply Forall_app in Hc. destruct Hc as [Hc1 Hc2].
+  inversion Hc2 as [|? ? Hcur _]; subst.
+  assert (Hcur' : Forall P (mcur m ++ [t])) by (apply Forall_app; split; [assumption|now constructor]).
+  unfold apply_edit. destruct roll; cbn [rollover mold mcur].
+  - apply Forall_app. split; [apply Forall_app; split; [assumption|now constructor]|].
+    constructor; [|constructor]. constructor; [apply Hroll|constructor].
+  - apply Forall_app. split; [assumption|now constructor].
+Qed.
+
+Lemma rollover_forall (P : txn -> Prop) m :
+  Forall (Forall P) (mfragments m) -> P (to_edit m) -> Forall (Forall P) (mfragments (rollover m)).
+Proof.
+  intros Hc Hr. unfold mfragments, rollover. cbn [mold mcur].
+  apply Forall_app. split; [assumption|]. constructor; [|constructor]. constructor; [assumption|constructor].
+Qed.
+
 Lemma rollover_fragments_canon m :
   Forall (Forall txn_canon) (mfragments m) -> canonical (mI m) -> canonical (mO m) -> canonical (mD m) ->
   Forall canonical (mstrs m) -> Forall (Forall txn_canon) (mfragments (rollover m)).
